@@ -994,6 +994,14 @@ class CallGraph:
                 continue
             self._scan(fn)
 
+    def _properties(self) -> dict[str, list[FuncInfo]]:
+        if not hasattr(self, "_props"):
+            self._props: dict[str, list[FuncInfo]] = {}
+            for f in self.prog.functions.values():
+                if f.cls is not None and any(d.split(".")[-1] in ("property", "cached_property") for d in f.decorators()):
+                    self._props.setdefault(f.name, []).append(f)
+        return self._props
+
     def _scan(self, fn: FuncInfo):
         r = Resolver(self.prog, fn)
         outs = self.edges.setdefault(fn.qname, set())
@@ -1039,6 +1047,15 @@ class CallGraph:
                         if isinstance(t, FuncInfo):
                             outs.add(t.qname)
                             self.sites.setdefault(t.qname, []).append((fn, n))
+        # property / cached_property reads are calls without a call node: `ctx.files_to_analyze` runs the method
+        props = self._properties()
+        for n in walk_no_nested(fn.node):
+            if isinstance(n, ast.Attribute) and isinstance(n.ctx, ast.Load) and n.attr in props:
+                t = r.type_of(n.value)
+                for m in props[n.attr]:
+                    # receiver of unknown type: every property of that name; of known repo type: the ones in its hierarchy
+                    if t is None or t not in self.prog.classes or m.cls is None or m.cls.qname in self.prog.mro(t) or t in self.prog.mro(m.cls.qname):
+                        outs.add(m.qname)
         # nested functions are reachable from their parent
         for q, f in self.prog.functions.items():
             if f.parent is fn:
